@@ -7,8 +7,15 @@
 //!
 //! See examples/clicker.rs for a concrete, complete example of exactly that.
 
+#[cfg(not(loom))]
 use std::sync::atomic::{AtomicBool, AtomicU64, Ordering};
+#[cfg(not(loom))]
 use std::sync::{Condvar, Mutex, MutexGuard};
+
+#[cfg(loom)]
+use loom::sync::atomic::{AtomicBool, AtomicU64, Ordering};
+#[cfg(loom)]
+use loom::sync::{Condvar, Mutex, MutexGuard};
 
 use biometrics::Counter;
 
@@ -131,6 +138,19 @@ impl<T: Clone> WaitList<T> {
     pub fn new() -> Self {
         NEW_WAIT_LIST.click();
         let mut waiters: Vec<Waiter<T>> = Vec::new();
+        // Verification builds use fewer slots:  creating 65,536 waiters per list dominates the
+        // cost of opening a store, and "more waiters than slots" must be reachable with 3 threads.
+        #[cfg(all(rescrv_blue_verif, not(loom)))]
+        const MAX_CONCURRENCY: usize = 64;
+        #[cfg(loom)]
+        const MAX_CONCURRENCY: usize = 4;
+        #[cfg(rescrv_blue_verif)]
+        let slots = crate::verif::wait_list_slots().unwrap_or(MAX_CONCURRENCY);
+        #[cfg(rescrv_blue_verif)]
+        for _ in 0..slots.min(MAX_CONCURRENCY) {
+            waiters.push(Waiter::new());
+        }
+        #[cfg(not(rescrv_blue_verif))]
         for _ in 0..MAX_CONCURRENCY {
             waiters.push(Waiter::new());
         }
